@@ -23,3 +23,18 @@ func verifYield(ctx context.Context, docURI protocol.DocumentURI, version uint64
 }
 
 func verifNop() {}
+
+// VerifStartHook is set by the verification harness (build tag "verif" only). Every
+// diagnostics task calls it before it does anything else (it holds no lock then); the hook
+// may block to impose the order in which tasks run. The function it returns (may be nil)
+// runs when the task returns.
+var VerifStartHook func(ctx context.Context, docURI protocol.DocumentURI, version uint64) func()
+
+func verifStart(ctx context.Context, docURI protocol.DocumentURI, version uint64) func() {
+	if hook := VerifStartHook; hook != nil {
+		if done := hook(ctx, docURI, version); done != nil {
+			return done
+		}
+	}
+	return verifNop
+}
